@@ -1,5 +1,6 @@
 import GdVerif.Spec.GsText
 import GdVerif.Lemmas.Reader
+import GdVerif.Lemmas.QuakeText
 /-
   Text-level lemmas for the GameSpy 1/2 proofs: decimal numbers against Rust's integer parsers,
   `str::split`, `str::trim`, UTF-8 validity of concatenations, whole-packet string reads.
@@ -200,13 +201,10 @@ theorem trimUtf8_padded (n : Nat) (t : Bytes) (hp : plain t) : trimUtf8 (List.re
   rw [hrev, List.reverse_reverse]
   exact utf8Encode_ascii t hasct
 
+/-- (proved once, in `Lemmas/QuakeText.lean`: a second `fun_induction` over `validUtf8` in another module
+would generate the same auxiliary declarations again) -/
 theorem validUtf8_append (a b : Bytes) (ha : validUtf8 a = true) (hb : validUtf8 b = true) :
-    validUtf8 (a ++ b) = true := by
-  fun_induction validUtf8 a with
-  | case1 => simpa using hb
-  | _ => all_goals first
-    | (simp at ha; done)
-    | (simp only [List.cons_append]; unfold validUtf8; simp_all)
+    validUtf8 (a ++ b) = true := Gd.Quake.validUtf8_append a b ha hb
 
 theorem inRange_false (b : UInt8) (lo hi : Nat) (h : b.toNat < lo ∨ hi < b.toNat) : inRange b lo hi = false := by
   unfold inRange
